@@ -23,6 +23,10 @@ PIECES = ['é', '日本', '😀', "'", '"', ' ', '  ', '=', '==', '\n', '\t', '\
 # names that would change how the binary itself starts / behaves are not generated
 AVOID = ('UCG', 'RUST', 'LD_', 'MALLOC', 'GLIBC', 'TMPDIR', 'HOME', 'PATH', 'LANG', 'LC_')
 
+# always included: empty values, lower / mixed case names that differ only in case (with different values), digits and underscores
+FIXED = {'EMPTY': '', 'empty_too': '', 'http_proxy': 'http://proxy.example:3128/?a=b&c=d', 'Token': 'mixed-Tfixed0000001', 'TOKEN': 'upper-Tfixed0000002', 'token': 'lower-Tfixed0000003',
+         'A1_b2__C3': 'digits and underscores', '_LEAD': '_ first', '9DIG': 'digit first', '__': 'only underscores', 'x': 'one letter', 'X': 'ONE LETTER', 'BLANK': ' ', 'EQ': '=', 'NL': '\n'}
+
 # environments on which the real code violates the property (none on the pinned HEAD)
 KNOWN = []
 
@@ -92,15 +96,19 @@ def standin_env_random(tier, seed):
     rnd = random.Random(seed)
     rsv = reserved()
     sizes = [0, 3, 10] if tier != 'thorough' else list(range(0, 11)) * 3
-    bound = ('%d random environments of %s variables (names over [A-Za-z0-9_] of 1..20 chars incl. leading digit/underscore, lower case, reserved words; values of 0..20 pieces of Unicode, quotes, blanks, `=`, newlines, '
+    bound = ('1 fixed environment (empty values, http_proxy, Token/TOKEN/token with different values, digits/underscores, leading _ and digit) + %d random environments of %s variables (names over [A-Za-z0-9_] of 1..20 chars incl. leading digit/underscore, lower case, reserved words; values of 0..20 pieces of Unicode, quotes, blanks, `=`, newlines, '
              'control characters, 60%% with an embedded distinctive token), each: every variable read in strict and --no-strict mode, 4 unset names (near misses of set names + random) in both modes, '
              'tuple fields named env; + 4 `let env` programs') % (len(sizes), '0..10' if tier == 'thorough' else '/'.join(map(str, sizes)))
     work = tempfile.mkdtemp(prefix='verif_c18_')
     n = 0
     try:
-        for ei, size in enumerate(sizes):
-            env, toks = gen_env(rnd, size)
-            if ei == 1:
+        for ei, size in enumerate(['fixed'] + sizes):
+            if size == 'fixed':
+                env = dict(FIXED)
+                toks = {k: ('Tfixed' + v.split('Tfixed')[1][:8] if 'Tfixed' in v else None) for k, v in env.items()}
+            else:
+                env, toks = gen_env(rnd, size)
+            if ei == 2:
                 env['env'] = 'a variable called env'       # env.env is that variable
                 toks['env'] = None
             names = list(env)
